@@ -117,23 +117,43 @@ Definition check_assign (cl : classes) (c : assign_case) : bool :=
 (* -------------------------------------------------------------------- graphs *)
 (* a history of operations on one set of objects (model: sess_step), compared call by
    call: raised or not, number of jobs the call added to the scheduler              *)
+Record op_answer := {
+  oa_raised : bool;          (* the call raised *)
+  oa_delta : nat;            (* jobs the call added to the scheduler *)
+  oa_job : bool;             (* afterwards: the object of the call (submitted task / assigned object) has a job *)
+  oa_init : list nat         (* afterwards: its init tasks *)
+}.
+
 Record graph_case := {
   gc_heap : heap;
   gc_ops : list op;
-  gc_ans : list (bool * nat)           (* (raised, jobs registered by this call) *)
+  gc_ans : list op_answer
 }.
 
-Fixpoint check_ops (cl : classes) (s : session) (ops : list op) (ans : list (bool * nat)) : bool :=
+Definition subject (o : op) : nat :=
+  match o with OSubmit r _ => r | OValidate r => r | OSet m _ _ => m end.
+
+Fixpoint natlist_eqb (a b : list nat) : bool :=
+  match a, b with
+  | [], [] => true
+  | x :: r, y :: r' => Nat.eqb x y && natlist_eqb r r'
+  | _, _ => false
+  end.
+
+(* the model is the REPAIRED session (sess_step: a rejected submit leaves no job) *)
+Fixpoint check_ops (cl : classes) (s : session) (ops : list op) (ans : list op_answer) : bool :=
   match ops, ans with
   | [], [] => true
-  | o :: ops', (raised, delta) :: ans' =>
+  | o :: ops', a :: ans' =>
       let '(s', v) := sess_step cl s o in
       match v with
-      | Accepted => negb raised
-      | Rejected => raised
+      | Accepted => negb (oa_raised a)
+      | Rejected => oa_raised a
       | OutOfFuel => false
       end &&
-      Nat.eqb delta (List.length (s_reg s') - List.length (s_reg s)) &&
+      Nat.eqb (oa_delta a) (List.length (s_reg s') - List.length (s_reg s)) &&
+      Bool.eqb (oa_job a) (mem (subject o) (s_jobs s')) &&
+      natlist_eqb (oa_init a) (match nth_error (s_heap s') (subject o) with Some n => n_init n | None => [] end) &&
       check_ops cl s' ops' ans'
   | _, _ => false
   end.
